@@ -406,10 +406,10 @@ bool dtoa_fixed(double val, char decimal_point, Result& result, std::false_type)
         return true;
     }
 
-    char buffer[100];
+    char buffer[512]; // "%1.*f" of the largest double with precision 17 needs 328 characters
     int precision = std::numeric_limits<double>::digits10;
     int length = snprintf(buffer, sizeof(buffer), "%1.*f", precision, val);
-    if (length < 0)
+    if (length < 0 || static_cast<std::size_t>(length) >= sizeof(buffer))
     {
         return false;
     }
@@ -423,7 +423,7 @@ bool dtoa_fixed(double val, char decimal_point, Result& result, std::false_type)
     {
         const int precision2 = std::numeric_limits<double>::max_digits10;
         length = snprintf(buffer, sizeof(buffer), "%1.*f", precision2, val);
-        if (length < 0)
+        if (length < 0 || static_cast<std::size_t>(length) >= sizeof(buffer))
         {
             return false;
         }
@@ -503,7 +503,7 @@ public:
     {
         std::size_t count = 0;
 
-        char number_buffer[200];
+        char number_buffer[512]; // "%1.*f" of the largest double with precision 127 needs 440 characters
         int length = 0;
 
         switch (float_format_)
@@ -513,7 +513,7 @@ public:
                 if (precision_ > 0)
                 {
                     length = snprintf(number_buffer, sizeof(number_buffer), "%1.*f", precision_, val);
-                    if (length < 0)
+                    if (length < 0 || static_cast<std::size_t>(length) >= sizeof(number_buffer))
                     {
                         JSONCONS_THROW(json_runtime_error<std::invalid_argument>("write_double failed."));
                     }
@@ -533,7 +533,7 @@ public:
                 if (precision_ > 0)
                 {
                     length = snprintf(number_buffer, sizeof(number_buffer), "%1.*e", precision_, val);
-                    if (length < 0)
+                    if (length < 0 || static_cast<std::size_t>(length) >= sizeof(number_buffer))
                     {
                         JSONCONS_THROW(json_runtime_error<std::invalid_argument>("write_double failed."));
                     }
@@ -553,7 +553,7 @@ public:
                 if (precision_ > 0)
                 {
                     length = snprintf(number_buffer, sizeof(number_buffer), "%1.*g", precision_, val);
-                    if (length < 0)
+                    if (length < 0 || static_cast<std::size_t>(length) >= sizeof(number_buffer))
                     {
                         JSONCONS_THROW(json_runtime_error<std::invalid_argument>("write_double failed."));
                     }
